@@ -50,8 +50,9 @@ def standin_simulate_grid(tier, seed):
     if tier == "quick":
         grid = grid[::3]
     seeds = [seed, seed + 7] if tier == "quick" else [seed + k for k in range(6)]
-    for (m, _), (n, mean, std, spacing), sd in itertools.product(models, grid, seeds):
-        vp = dict(visit_type="random", patient_number=n, first_visit_mean=0.0, first_visit_std=0.4,
+    grid = [(n, mean, std, spacing, 0.0) for n, mean, std, spacing in grid] + [(3, 2.0, 0.3, "absent", 80.0), (3, 2.0, 0.3, "absent", -60.0)]
+    for (m, _), (n, mean, std, spacing, first), sd in itertools.product(models, grid, seeds):
+        vp = dict(visit_type="random", patient_number=n, first_visit_mean=first, first_visit_std=0.4,
                   time_follow_up_mean=4.0, time_follow_up_std=1.0, distance_visit_mean=mean, distance_visit_std=std)
         if spacing != "absent":
             vp["min_spacing_between_visits"] = spacing
@@ -63,7 +64,7 @@ def standin_simulate_grid(tier, seed):
             violations.append(dict(key=f"{key}: an accepted design did not run to completion: {type(e).__name__}: {str(e)[:120]}"))
             break
         evals += 1
-        distinct.add((n, mean, std, spacing, sd))
+        distinct.add((n, mean, std, spacing, first, sd))
         check_result(res, feats, range(n), key, violations)
         if len(samples) < 2:
             samples.append(vp)
@@ -74,6 +75,8 @@ def standin_simulate_grid(tier, seed):
         "unsorted_dups": pd.DataFrame({"ID": ["b", "a", "b", "a", "b", "a"], "TIME": [72.12345, 71.5, 65.0, 71.5004, 80, 71.5]}),
         "int_ids": pd.DataFrame({"ID": [3, 3, 11], "TIME": [60.25, 61.75, 70.0]}),
         "single_visits": pd.DataFrame({"ID": ["x", "y", "z"], "TIME": [60.0, 61.0, 62.0]}),
+        # ages far outside the fitted range: the logistic curves saturate at 0 / 1 (valid designs all the same)
+        "extreme_ages": pd.DataFrame({"ID": ["a", "a", "a", "b", "b"], "TIME": [150.0, 300.0, 400.0, 1.0, 20.0]}),
     }
     for (m, _), (tn, tab) in itertools.product(models, tables.items()):
         if violations:
@@ -94,7 +97,7 @@ def standin_simulate_grid(tier, seed):
     return dict(evaluations=evals, distinct_nontrivial=len(distinct),
                 rule="one evaluation = one complete simulate() run on a real fitted logistic model; distinct = design x seed",
                 samples=samples, violations=violations[:5],
-                bound=dict(space="design grid x seeds x 2 fitted logistic models + 4 visit tables", designs=len(grid),
+                bound=dict(space="design grid x seeds x 2 fitted logistic models + 5 visit tables (one with saturating ages)", designs=len(grid),
                            seeds=len(seeds), exhaustive=False, seed=seed))
 
 
